@@ -175,7 +175,8 @@ def run_main_scenarios(spec, scratch):
                 # C17: an accelerating voltage that does not exceed the radiation loss per turn (no stable bucket: V_eff is not a
                 # positive number) must end in a message, not in a hang or a run on NaN parameters
                 text, failed = [], False
-                for nm, extra in (('far below the loss per turn', ['-V', '1e3']), ('zero', ['-V', '0']), ('ordinary', [])):
+                for nm, extra in (('far below the loss per turn', ['-V', '1e3']), ('zero', ['-V', '0']), ('ordinary, but a negative momentum compaction factor', ['--alpha0', '-3e-3']),
+                                  ('ordinary, but a zero momentum compaction factor', ['--alpha0', '0']), ('ordinary', [])):
                     out = os.path.join(work, 'volt.h5')
                     for ext in ('', '.cfg'):
                         try:
@@ -190,7 +191,7 @@ def run_main_scenarios(spec, scratch):
                     if nm == 'ordinary':
                         ok = (rc == 0 and os.path.exists(out))
                     else:
-                        ok = (not hung) and not os.path.exists(out) and 'oltage' in so
+                        ok = (not hung) and not os.path.exists(out) and ('oltage' in so or 'alpha0' in so)
                     failed |= not ok
                     text.append(f'accelerating voltage {nm}: ' + ('does not end within 30 s' if hung else f'exit {rc}, results file written: {os.path.exists(out)}, last message: {so.strip().splitlines()[-1][-100:] if so.strip() else ""!r}'))
                 outs.append({'args': [sc], 'exit': 1 if failed else 0, 'stdout': '\n'.join(text)})
